@@ -69,6 +69,31 @@ class Iter:
         return r
 
 
+class LazyIter(Iter):
+    """an iterator adaptor: items are produced (and the closures behind them run) when the consumer asks, as in Rust"""
+    def __init__(self, gen):
+        self.gen = gen
+        self.items, self.pos = [], 0
+
+    def next(self):
+        try:
+            return some(next(self.gen))
+        except StopIteration:
+            return none()
+
+    def rest(self):
+        return list(self.gen)
+
+
+def drain(it):
+    """pull the items of an Iter one at a time"""
+    while True:
+        r = it.next()
+        if not isinstance(r, Enum) or r.variant == 0:
+            return
+        yield r.fields[0]
+
+
 class Map:
     def __init__(self, pairs=()):
         self.d = {}
@@ -88,6 +113,14 @@ def key_of(k):
     if isinstance(k, Enum):
         return ("e", k.variant) + tuple(key_of(x) for x in k.fields)
     return ("id", id(k))
+
+
+def plain_of(x):
+    """the concrete string / integer an abstract value stands for, or the value itself"""
+    x = absint.deref(x)
+    if isinstance(x, Text):
+        return x.flat()
+    return x
 
 
 def veq(a, b):
@@ -468,6 +501,20 @@ class Machine:
              "Option::cloned", "Option<T>::cloned", "Option<&T>::cloned", "Option::copied", "Option<&T>::copied", "Option<T>::copied",
              "Option::as_deref_mut"):
             return a0
+        if "<impl char>" in c and end in ("escape_default", "escape_debug", "escape_unicode") and isinstance(a0, int) and not isinstance(a0, bool):
+            # the text the escape iterator yields (it is only ever printed or collected)
+            ch = chr(a0)
+            if end == "escape_unicode":
+                return "\\u{%x}" % a0
+            if ch in "\t\r\n":
+                return {"\t": "\\t", "\r": "\\r", "\n": "\\n"}[ch]
+            if ch in "'\"\\":
+                return "\\" + ch
+            if 0x20 <= a0 <= 0x7e:
+                return ch
+            if end == "escape_debug" and ch.isprintable():
+                return ch
+            return "\\u{%x}" % a0
         if m("std::hint::must_use", "std::convert::identity", "std::hint::black_box"):
             return a0
         if m("std::mem::drop", "std::ops::Drop>::drop"):
@@ -719,6 +766,38 @@ class Machine:
             if isinstance(a0, list) and isinstance(a[1], int) and 0 <= a[1] < len(a0):
                 return a0.pop(a[1])
             return UNKNOWN
+        if m("<impl [T]>::sort", "<impl [T]>::sort_unstable"):
+            # total order of concrete strings / integers only (Rust's Ord on str is bytewise = Python's order on str for ASCII)
+            vals = [plain_of(x) for x in a0] if isinstance(a0, list) else None
+            if vals is not None and (all(isinstance(v, str) for v in vals) or all(isinstance(v, int) and not isinstance(v, bool) for v in vals)):
+                order = sorted(range(len(a0)), key=lambda i: vals[i])
+                a0[:] = [a0[i] for i in order]
+                return []
+            return UNKNOWN
+        if m("<impl [T]>::binary_search"):
+            # std's algorithm (its result on a slice that is not sorted is whatever these steps give)
+            vals = [plain_of(x) for x in a0] if isinstance(a0, list) else None
+            x = plain_of(a[1]) if len(a) > 1 else None
+            if vals is not None and isinstance(x, (str, int)) and all(type(v) is type(x) for v in vals):
+                size, base = len(vals), 0
+                if size == 0:
+                    return err(0)
+                while size > 1:
+                    half = size // 2
+                    mid = base + half
+                    base = base if vals[mid] > x else mid
+                    size -= half
+                if vals[base] == x:
+                    return ok(base)
+                return err(base + (1 if vals[base] < x else 0))
+            return UNKNOWN
+        if m("Vec::dedup"):
+            vals = [plain_of(x) for x in a0] if isinstance(a0, list) else None
+            if vals is not None and all(isinstance(v, (str, int)) for v in vals):
+                keep = [x for i, x in enumerate(a0) if i == 0 or vals[i] != vals[i - 1]]
+                a0[:] = keep
+                return []
+            return UNKNOWN
         if m("<impl [T]>::reverse"):
             if isinstance(a0, list):
                 a0.reverse()
@@ -827,7 +906,18 @@ class Machine:
                  mir.norm(f.self_ty).split("<")[0] == adt]
         if len(cands) != 1:
             return NOT
+        if self.intercept is not None:
+            r = self.intercept(self, cands[0].name, [it], None, None)
+            if r is not NOT:
+                return r
         return self.run(cands[0], [it])
+
+    def has_local_next(self, it):
+        adt = getattr(it, "adt", None) if isinstance(it, Enum) else None
+        if not adt:
+            return False
+        return len([f for f in self.fb.all(self.crate) if f.name.endswith("::next") and f.trait and "Iterator" in f.trait and f.self_ty and
+                    mir.norm(f.self_ty).split("<")[0] == adt]) == 1
 
     def step(self, it):
         if isinstance(it, Iter):
@@ -840,18 +930,26 @@ class Machine:
         return self.local_next(it)
 
     def materialize(self, it, bound=40):
-        """all remaining items of an abstract iterator as an Iter (None if it cannot be stepped)"""
+        """the remaining items of an abstract iterator as an Iter that steps it on demand (None if it cannot be stepped)"""
         if isinstance(it, Iter):
             return it
-        items = []
-        for _ in range(bound):
-            r = self.step(it)
-            if r is NOT or not isinstance(r, Enum):
+        if isinstance(it, PeekableIt):
+            inner_ok = isinstance(it.inner, Iter) or self.has_local_next(it.inner)
+            if not inner_ok:
                 return None
-            if r.variant == 0:
-                return Iter(items)
-            items.append(r.fields[0])
-        return None
+        elif not self.has_local_next(it):
+            return None
+
+        def gen():
+            for _ in range(bound):
+                r = self.step(it)
+                if r is NOT or not isinstance(r, Enum):
+                    raise Stuck("cannot step the iterator %r" % (getattr(it, "adt", it),))
+                if r.variant == 0:
+                    return
+                yield r.fields[0]
+            raise Stuck("iterator longer than the bound %d" % bound)
+        return LazyIter(gen())
 
     def _iter_model(self, c, end, a, tt, g):
         a0 = a[0] if a else None
@@ -868,6 +966,24 @@ class Machine:
             if end == "next":
                 r = self.step(a0)
                 return UNKNOWN if r is NOT else r
+            if end in ("next_if", "next_if_eq") and len(a) > 1:
+                if a0.peeked is None:
+                    a0.peeked = self.step(a0.inner)
+                    if a0.peeked is NOT:
+                        a0.peeked = None
+                        return UNKNOWN
+                pk = a0.peeked
+                if not isinstance(pk, Enum):
+                    return UNKNOWN
+                if pk.variant == 0:
+                    return none()
+                take = self.call_value(a[1], [pk.fields[0]]) if end == "next_if" else veq(pk.fields[0], a[1])
+                if take is True:
+                    a0.peeked = None
+                    return pk
+                if take is False:
+                    return none()
+                raise Stuck("next_if predicate undecided")
         if not isinstance(a0, Iter) and end in ITER_METHODS and end != "next" and \
                 (isinstance(a0, PeekableIt) or (isinstance(a0, Enum) and getattr(a0, "adt", None))):
             mat = self.materialize(a0)
@@ -883,27 +999,48 @@ class Machine:
                 return UNKNOWN
             return NOT
         if end == "map":
-            return Iter([self.call_value(a[1], [x]) for x in a0.rest()])
+            return LazyIter(self.call_value(a[1], [x]) for x in drain(a0))
         if end == "filter":
-            out = []
-            for x in a0.rest():
-                r = self.call_value(a[1], [x])
-                if r is True:
-                    out.append(x)
-                elif r is not False:
-                    raise Stuck("filter predicate undecided")
-            return Iter(out)
+            def g_filter():
+                for x in drain(a0):
+                    r = self.call_value(a[1], [x])
+                    if r is True:
+                        yield x
+                    elif r is not False:
+                        raise Stuck("filter predicate undecided")
+            return LazyIter(g_filter())
         if end == "filter_map":
-            out = []
-            for x in a0.rest():
-                r = self.call_value(a[1], [x])
-                if not isinstance(r, Enum):
-                    raise Stuck("filter_map result undecided")
-                if r.variant == 1:
-                    out.append(r.fields[0])
-            return Iter(out)
+            def g_fmap():
+                for x in drain(a0):
+                    r = self.call_value(a[1], [x])
+                    if not isinstance(r, Enum):
+                        raise Stuck("filter_map result undecided")
+                    if r.variant == 1:
+                        yield r.fields[0]
+            return LazyIter(g_fmap())
+        if end == "map_while":
+            def g_mw():
+                for x in drain(a0):
+                    r = self.call_value(a[1], [x])
+                    if not isinstance(r, Enum):
+                        raise Stuck("map_while result undecided")
+                    if r.variant != 1:
+                        return
+                    yield r.fields[0]
+            return LazyIter(g_mw())
+        if end == "take_while":
+            def g_tw():
+                for x in drain(a0):
+                    r = self.call_value(a[1], [x])
+                    if r is True:
+                        yield x
+                    elif r is False:
+                        return
+                    else:
+                        raise Stuck("take_while predicate undecided")
+            return LazyIter(g_tw())
         if end == "enumerate":
-            return Iter([[i, x] for i, x in enumerate(a0.rest())])
+            return LazyIter([i, x] for i, x in enumerate(drain(a0)))
         if end == "rev":
             return Iter(list(reversed(a0.rest())))
         if end in ("by_ref", "peekable", "fuse", "cloned", "copied", "into_iter"):
@@ -912,21 +1049,24 @@ class Machine:
             r = a0.rest()
             return Iter(r[a[1]:]) if isinstance(a[1], int) else UNKNOWN
         if end == "take":
-            r = a0.rest()
-            return Iter(r[:a[1]]) if isinstance(a[1], int) else UNKNOWN
+            if not isinstance(a[1], int):
+                return UNKNOWN
+            import itertools as _it
+            return LazyIter(_it.islice(drain(a0), a[1]))
         if end == "zip":
             o = a[1].rest() if isinstance(a[1], Iter) else (a[1] if isinstance(a[1], list) else None)
             if o is None:
                 return UNKNOWN
-            return Iter([[x, y] for x, y in zip(a0.rest(), o)])
+            return LazyIter([x, y] for x, y in zip(drain(a0), o))
         if end == "chain":
             o = a[1].rest() if isinstance(a[1], Iter) else (a[1] if isinstance(a[1], list) else None)
             if o is None:
                 return UNKNOWN
-            return Iter(a0.rest() + list(o))
+            import itertools as _it
+            return LazyIter(_it.chain(drain(a0), iter(list(o))))
         if end in ("collect", "from_iter", "collect_vec"):
-            items = a0.rest()
             dty = (g.local_ty(tt["dest"]["local"]) or "") if (g is not None and tt is not None) else ""
+            items = drain(a0) if dty.startswith("std::result::Result<") else a0.rest()
             if dty.startswith("std::result::Result<"):
                 out = []
                 for x in items:
@@ -944,17 +1084,17 @@ class Machine:
             r = a0.rest()
             return some(r[-1]) if r else none()
         if end == "for_each":
-            for x in a0.rest():
+            for x in drain(a0):
                 self.call_value(a[1], [x])
             return []
         if end == "fold":
             acc = a[1]
-            for x in a0.rest():
+            for x in drain(a0):
                 acc = self.call_value(a[2], [acc, x])
             return acc
         if end == "try_fold":
             acc = a[1]
-            for x in a0.rest():
+            for x in drain(a0):
                 r = self.call_value(a[2], [acc, x])
                 if not isinstance(r, Enum):
                     raise Stuck("try_fold step undecided")
@@ -965,7 +1105,7 @@ class Machine:
             dty = (g.local_ty(tt["dest"]["local"]) or "") if (g is not None and tt is not None) else ""
             return some(acc) if dty.startswith("std::option::Option<") else ok(acc)
         if end == "try_for_each":
-            for x in a0.rest():
+            for x in drain(a0):
                 r = self.call_value(a[1], [x])
                 if not isinstance(r, Enum):
                     raise Stuck("try_for_each step undecided")
@@ -976,7 +1116,7 @@ class Machine:
             return some([]) if dty.startswith("std::option::Option<") else ok([])
         if end in ("any", "all"):
             res = end == "all"
-            for x in a0.rest():
+            for x in drain(a0):
                 r = self.call_value(a[1], [x])
                 if r is UNKNOWN or not isinstance(r, bool):
                     raise Stuck("%s predicate undecided" % end)
@@ -986,7 +1126,7 @@ class Machine:
                     return False
             return res
         if end in ("find", "position", "find_map"):
-            for i, x in enumerate(a0.rest()):
+            for i, x in enumerate(drain(a0)):
                 r = self.call_value(a[1], [x])
                 if end == "find_map":
                     if isinstance(r, Enum) and r.variant == 1:
@@ -1100,5 +1240,5 @@ OPTION_METHODS = {"transpose", "map", "and_then", "ok_or", "ok_or_else", "unwrap
                   "is_none", "or", "or_else", "filter", "unwrap", "expect", "take", "replace"}
 RESULT_METHODS = {"transpose", "map", "map_err", "and_then", "or_else", "ok", "err", "is_ok", "is_err", "unwrap_or", "unwrap_or_else", "unwrap",
                   "expect"}
-ITER_METHODS = {"map", "filter", "filter_map", "enumerate", "rev", "skip", "take", "zip", "chain", "collect", "count", "last",
+ITER_METHODS = {"map", "filter", "filter_map", "map_while", "take_while", "enumerate", "rev", "skip", "take", "zip", "chain", "collect", "count", "last",
                 "for_each", "fold", "try_fold", "try_for_each", "any", "all", "find", "position", "find_map", "next"}
